@@ -58,6 +58,18 @@ pub(crate) fn codegen_callable_closure(
     let function = {
         let inputs = input_parameter_types.into_iter().map(|mut type_| {
             let variable_name = &parameter_bindings[&type_.canonicalize()];
+            // An owned input must be bound mutably if one of its dependents
+            // takes it by mutable reference.
+            let is_borrowed_mutably = call_graph.call_graph.node_indices().any(|index| {
+                matches!(
+                    &call_graph.call_graph[index],
+                    CallGraphNode::InputParameter { type_: t, .. } if t == &type_
+                ) && call_graph
+                    .call_graph
+                    .edges_directed(index, Direction::Outgoing)
+                    .any(|e| e.weight() == &CallGraphEdgeMetadata::ExclusiveBorrow)
+            });
+            let maybe_mut = is_borrowed_mutably.then(|| quote! {mut});
             // We can set all the non-'static lifetimes to implied (i.e. '_) in function signatures.
             let original2renamed = type_
                 .named_lifetime_parameters()
@@ -66,7 +78,7 @@ pub(crate) fn codegen_callable_closure(
                 .collect();
             type_.rename_lifetime_parameters(&original2renamed);
             let variable_type = type_.syn_type(package_id2name);
-            quote! { #variable_name: #variable_type }
+            quote! { #maybe_mut #variable_name: #variable_type }
         });
         let component_id = match &call_graph.call_graph[call_graph.root_node_index] {
             CallGraphNode::Compute { component_id, .. } => component_id,
